@@ -1,3 +1,126 @@
+"""C12 - wind acts by segment, in order of distance, symmetrically and causally."""
+import time
+
+from contracts.integrate_rt import rt_integrate  # noqa: F401
+
 LEVEL = 'proof'
-EXPLANATION = 'C12'
-EXTRA = []
+EXPLANATION = ('Shot.winds: the result is a permutation of the given winds ordered by until-distance (1-, 2-, 3-wind instances '
+               'with the permutation explicit; any length: sorted + every until-distance is a given one; sorted() is trusted to '
+               'be a stable sorting permutation), the given list is not re-ordered (frame). Wind.vector: components from speed '
+               'and direction, zero speed = zero vector, wind from the left pushes to the right (+z), from behind down-range. '
+               '_WindSock.__init__ / vector_for_range under contract with loop invariant and variant: the index is in range, '
+               'inside a segment its end and its wind vector are the cached ones, beyond the last segment the wind is zero, '
+               'every segment ending at or before the query has been left (the lag repaired in ee1d162 is this clause) and no '
+               'segment beginning beyond the query is in force (causality). _integrate: invariant "the wind in force is the '
+               'cached one of the segment containing the current distance" + step clause for every iteration; an empty list '
+               'behaves as no wind (Shot.__init__ / _WindSock with zero winds: zero vector). Mirror symmetry: the step clauses '
+               'of _integrate (proved for every iteration) are equalities in which wind enters only through the air-relative '
+               'velocity v - w; lemma_mirror_step shows for the step map so specified (retardation an uninterpreted function of '
+               'altitude and air speed) that mirroring v.z, w.z, p.z negates the z-components of the next state and leaves the '
+               'x, y, t components unchanged.')
+TEXT = ('segment selection, ordering, causality, zero-wind and the sign of the wind vector are proved; mirror symmetry and '
+        'head/tail-wind senses over a WHOLE trajectory are induction corollaries exercised by a bounded stand-in')
+NOT_DECIDED = ['"head and tail winds change drop and time of flight in opposite senses" is a monotonicity statement about the '
+               'integrated nonlinear dynamics (drag is an uninterpreted function): bounded only',
+               'whole-trajectory mirror symmetry / causality: per-step clauses proved, induction over steps bounded']
+EXTRA = ['lemma_mirror_step', 'bounded_wind_relations', 'rt_integrate']
+
+
+def lemma_mirror_step(tier, seed):
+    """the step map of the _integrate step clauses (time-advances..., velocity-changes..., position-changes...) commutes
+    with the left-right mirror (z -> -z of position, velocity and wind)"""
+    import z3
+    from pyvc.scan import result, obl
+    t0 = time.time()
+    R = z3.Real
+    vx, vy, vz, wx, wy, wz, px, py, pz, g, h = (R(n) for n in 'vx vy vz wx wy wz px py pz g h'.split())
+    sqrt = z3.Function('sqrt', z3.RealSort(), z3.RealSort())
+    ret = z3.Function('retardation', z3.RealSort(), z3.RealSort(), z3.RealSort())     # (altitude, air speed)
+
+    def step(vx, vy, vz, wx, wy, wz, px, py, pz):
+        sig = sqrt((vx - wx) * (vx - wx) + (vy - wy) * (vy - wy) + (vz - wz) * (vz - wz))
+        dt = h / z3.If(sig >= 1, sig, 1)
+        r = ret(py, sig)
+        nvx = vx - ((vx - wx) * r) * dt
+        nvy = vy - ((vy - wy) * r - g) * dt
+        nvz = vz - ((vz - wz) * r) * dt
+        return dt, nvx, nvy, nvz, px + nvx * dt, py + nvy * dt, pz + nvz * dt
+    a = step(vx, vy, vz, wx, wy, wz, px, py, pz)
+    b = step(vx, vy, -vz, wx, wy, -wz, px, py, -pz)
+    goal = z3.And(a[0] == b[0], a[1] == b[1], a[2] == b[2], a[3] == -b[3], a[4] == b[4], a[5] == b[5], a[6] == -b[6])
+    s = z3.Solver()
+    s.set('timeout', 20000)
+    # polynomial identity (-a + b)^2 = (a - b)^2 under the uninterpreted sqrt: give the solver the congruence instance
+    s.add((-vz + wz) * (-vz + wz) == (vz - wz) * (vz - wz))
+    s.add(z3.Not(goal))
+    r = s.check()
+    o = obl('lemma::mirrored-wind-and-lateral-state-give-the-mirrored-next-state', r == z3.unsat,
+            f'step map of the step clauses commutes with z -> -z ({r}); retardation and sqrt uninterpreted', kind='lemma')
+    o['backend'] = 'z3'
+    o['result'] = 'unsat' if r == z3.unsat else ('unknown' if r == z3.unknown else 'sat')
+    o['time'] = round(time.time() - t0, 3)
+    return result('lemma:mirror-step', [o], t0, props=('C12',))
+
+
+def bounded_wind_relations(tier, seed):
+    import random
+    from pyvc.bounded import pkg, mk
+    from pyvc.scan import result
+    P = pkg()
+    rng = random.Random(1200 + seed)
+    t0 = time.time()
+    bad = None
+    cases = 0
+
+    def shot(winds):
+        # no twist: no spin drift, so windage is the lateral position alone
+        return P.Shot(P.Weapon(P.Unit.Inch(2), 0), P.Ammo(P.DragModel(0.3, P.TableG7), P.Unit.FPS(2600)), winds=winds)
+
+    def fire(winds):
+        return P.Calculator().fire(shot(winds), P.Unit.Yard(500), P.Unit.Yard(50)).trajectory
+
+    def cols(r, skip_w=False):
+        c = [r.time, r.distance >> P.Unit.Foot, r.velocity >> P.Unit.FPS, r.height >> P.Unit.Foot, r.mach]
+        return c if skip_w else c + [r.windage >> P.Unit.Foot]
+
+    def close(a, b, tol=1e-9):
+        return all(abs(x - y) <= tol * max(1.0, abs(x), abs(y)) for x, y in zip(a, b))
+    for k in range(3 if tier == 'quick' else 10):
+        segs = [(rng.uniform(2, 20), rng.uniform(0, 360), d) for d in (120, 260, None)]
+        mk_w = lambda sg, sign=1: [P.Wind(P.Unit.MPH(v), P.Unit.Degree(sign * a), P.Unit.Yard(d) if d else None) for v, a, d in sg]  # noqa
+        base = fire(mk_w(segs))
+        # order given does not matter
+        cases += 1
+        if not all(close(cols(a), cols(b), 0) for a, b in zip(base, fire(list(reversed(mk_w(segs)))))):
+            bad = 'the order in which the winds are given changes the result'
+        # mirror
+        cases += 1
+        mir = fire(mk_w(segs, -1))
+        for a, b in zip(base, mir):
+            if not close(cols(a, True), cols(b, True)) or abs((a.windage >> P.Unit.Foot) + (b.windage >> P.Unit.Foot)) > 1e-9:
+                bad = f'mirroring the wind directions: row at {a.distance} not mirrored'
+        # causality: change the segments beginning beyond 260 yd, rows up to 250 yd unchanged
+        cases += 1
+        seg2 = segs[:2] + [(segs[2][0] + 7, segs[2][1] + 50, None)]
+        for a, b in zip(base, fire(mk_w(seg2))):
+            if (a.distance >> P.Unit.Yard) <= 255 and not close(cols(a), cols(b), 0):
+                bad = f'changing a segment beginning at 260 yd changed the row at {a.distance}'
+        # adding a zero-speed tail segment / zero wind = none
+        cases += 1
+        if not all(close(cols(a), cols(b), 0) for a, b in zip(fire([]), fire([P.Wind(P.Unit.MPH(0), P.Unit.Degree(77))]))):
+            bad = 'a zero-speed wind differs from no wind'
+    # senses
+    cases += 1
+    none, left = fire([]), fire([P.Wind(P.Unit.MPH(10), P.Unit.Degree(90))])
+    tail, headw = fire([P.Wind(P.Unit.MPH(20), P.Unit.Degree(0))]), fire([P.Wind(P.Unit.MPH(20), P.Unit.Degree(180))])
+    if not (left[-1].windage >> P.Unit.Foot) > 0:
+        bad = 'wind from the left does not deflect to the right'
+    if not (tail[-1].time < none[-1].time < headw[-1].time):
+        bad = 'head / tail wind do not change the time of flight in opposite senses'
+    if not ((tail[-1].height >> P.Unit.Foot) > (none[-1].height >> P.Unit.Foot) > (headw[-1].height >> P.Unit.Foot)):
+        bad = 'head / tail wind do not change the drop in opposite senses'
+    return result('bounded:wind-relations', [mk('order-mirror-causality-zero-wind-and-senses', bad is None,
+                  'three-segment random winds: given order irrelevant (bitwise), mirrored directions negate windage and keep '
+                  'other columns (1e-9), segments beyond 260 yd do not change rows up to 250 yd (bitwise), zero-speed wind = no '
+                  'wind (bitwise), left wind deflects right, head/tail winds change time and drop in opposite senses',
+                  cases, t0, bad)], t0, props=('C12',))
